@@ -71,7 +71,11 @@ Definition sort_ids (l : list nat) : list nat := fold_right insert_sorted [] l.
    the oracle's testament / text comparison) *)
 Definition store_of (l : list revid) : store nat := map (fun r => (r, r)) l.
 Definition run_bundle (g : dag) (base : option revid) (tgt : revid) (extra : list revid) : obs :=
-  let s := store_of (union extra (filter (present g) (ancestors g (commons base)))) in
+  let s := store_of (dedup (filter (present g) (ancestors g (commons base ++ extra)))) in
   OL [olist onat (sort_ids (bundle_ids g base tgt));
       olist onat (sort_ids (map fst (install (bundle nat (fun r => r) g base tgt) s)));
       olist onat (sort_ids (map fst (fetch nat (fun r => r) g s tgt)))].
+
+(* the revisions a repository holds after it received everything below the seeds *)
+Definition run_closure (g : dag) (seeds : list revid) : obs :=
+  olist onat (sort_ids (dedup (filter (present g) (ancestors g seeds)))).
